@@ -36,10 +36,13 @@ class ShardState:
     def execute(self, case):
         from vf.core import (Ctx, Inconclusive, Violation, case_hash,
                              exc_bucket, to_jsonable)
-        if time.time() > self.deadline:
-            self.skipped_budget += 1
-            return
         jcase = to_jsonable(case)
+        if time.time() > self.deadline:
+            # out of budget: stop exploring/shrinking, but let Hypothesis'
+            # final replay of the failing case reproduce its failure
+            if self.last_fail is None or jcase != self.last_fail[0]:
+                self.skipped_budget += 1
+                return
         ctx = Ctx()
         self.evaluations += 1
         v = None
@@ -111,7 +114,13 @@ def run_shard(prop, subname, shard, ncases, seed, budget, tier='quick'):
 
         try:
             t()
-        except Violation:
+        except (Violation, hypothesis.errors.FlakyFailure,
+                hypothesis.errors.Flaky) as exc:
+            if st.last_fail is None:
+                harness_error = traceback.format_exc()
+                break
+            if not isinstance(exc, Violation):
+                st.events['flaky_replay'] += 1
             jcase, v, key = st.last_fail
             violations.append({'subcheck': subname, 'assertion': v.aid,
                                'bucket': v.bucket, 'message': v.msg[:1000],
